@@ -15,14 +15,17 @@ def prop(pid):
     return deco
 
 
-def records_check(run, binary, driver, module, env=None, tier=None, sub=None, args=()):
-    """Drive, judge records with TLC, confirm each bad record in isolation."""
+def records_check(run, binary, driver, module, env=None, tier=None, sub=None, args=(), post=None):
+    """Drive, judge records with TLC, confirm each bad record in isolation.
+    post(files): optional step between driver and TLC (e.g. an independent oracle filling a field)."""
     e = dict(env or {})
     if getattr(run, "only", None):
         e["VERIF_ONLY"] = run.only
     d, meta = run.drive(binary, driver, env=e, tier=tier, sub=sub, args=args)
     run.absorb(meta)
     files = meta["files"]["records"]
+    if post:
+        post(files)
     n, bad = vlib.tlc_records(run, module, files)
     run.extra["records_judged_by_tlc"] = run.extra.get("records_judged_by_tlc", 0) + n
     seen = set()
@@ -34,6 +37,8 @@ def records_check(run, binary, driver, module, env=None, tier=None, sub=None, ar
         def recheck(key=key):
             e2 = dict(e, VERIF_ONLY=key)
             d2, m2 = run.drive(binary, driver, sub="recheck-%d" % len(seen), env=e2, tier=tier, args=args)
+            if post:
+                post(m2["files"]["records"])
             n2, bad2 = vlib.tlc_records(run, module, m2["files"]["records"])
             recs = []
             for p in m2["files"]["records"]:
@@ -231,4 +236,26 @@ def c14(run):
     run.assumptions += ["Pmce!LegalAnswer transcribes RFC 7692 7.1 as quoted in the property; declining an offer is always legal",
                         "parameter values are mapped to naturals by the harness ('' -> 0, canonical decimals -> n, anything else -> 77 = ill-valued)"]
     records_check(run, b, "c14", "C14Records")
+    return run.finish("model_checking")
+
+
+@prop("C12")
+def c12(run):
+    import subprocess
+    b = run.build()
+    vlib.tlc_model(run, "FlateStream", workers=8)
+    ind = os.path.join(run.work, "c12in")
+    oracle = os.path.join(vlib.VERIF, "tools", "flate_oracle.py")
+    p = subprocess.run(["python3", oracle, "gen", ind, run.tier, str(run.seed)], capture_output=True, text=True)
+    if p.returncode != 0:
+        raise Infra("flate oracle gen failed: " + p.stdout + p.stderr)
+
+    def post(files):
+        q = subprocess.run(["python3", oracle, "judge"] + list(files), capture_output=True, text=True)
+        if q.returncode != 0:
+            raise Infra("flate oracle judge failed: " + q.stdout + q.stderr)
+
+    run.assumptions += ["DEFLATE bit-level fidelity is decided by an independent implementation (Python zlib: raw inflate of wire + 00 00 ff ff; raw deflate with Z_SYNC_FLUSH as input for the reader), not by TLA+; the specification decides the history and the tail protocol around it (FlateStream.tla, model-checked)",
+                        "the compressor/decompressor are uninterpreted in the specification; scripted fakes exercise cbuf and the suffixed reader exactly"]
+    records_check(run, b, "c12", "C12Records", env={"C12_IN": ind}, post=post)
     return run.finish("model_checking")
